@@ -108,7 +108,7 @@ type gen struct {
 	// function name -> carriers of its zeroed results, for the literal extraction
 	zeroSlots map[string][]slot
 	meta      *hx.Meta
-	seen      map[string]bool // plugin + argument types: goderive wants one name per type tuple
+	seen      map[string]bool  // plugin + argument types: goderive wants one name per type tuple
 	composeAr map[string][]int // generated function name -> arity vector, for the translation
 }
 
@@ -733,7 +733,7 @@ func Run(cfg hx.Config) (*hx.Meta, error) {
 	if b.Exit != 0 {
 		meta.AddDirect(hx.Direct{Class: "c16-build-failed", What: "the package generated for C16 does not compile: " + firstLines(b.Out, 3),
 			Files: map[string]string{"calls.go": hx.Truncate(files["calls.go"], 20000), "derived.gen.go": hx.Truncate(string(genSrc), 20000)},
-			Cmd: "goderive . && go build -tags drv", Output: hx.Truncate(b.Out, 4000)})
+			Cmd:   "goderive . && go build -tags drv", Output: hx.Truncate(b.Out, 4000)})
 	} else {
 		res := hx.Run(dir, 300e9, 4000000, nil, filepath.Join(dir, "drv"), "cases.txt")
 		if res.Exit != 0 {
@@ -744,7 +744,14 @@ func Run(cfg hx.Config) (*hx.Meta, error) {
 		seen := map[string]bool{}
 		for _, l := range strings.Split(res.Stdout, "\n") {
 			k := strings.SplitN(l, " ", 2)[0]
-			if l != "" && !seen[k] && !strings.Contains(l, " 0 (") {
+			min := 30
+			switch k {
+			case "(compose":
+				min = 70
+			case "(traverse", "(toerror":
+				min = 44
+			}
+			if len(l) > min && !seen[k] && !strings.Contains(l, ") 0 (") {
 				seen[k] = true
 				meta.Sample(hx.Truncate(l, 220))
 			}
